@@ -430,3 +430,13 @@ def replay(ctx, payload):
     if d:
         return "model/implementation disagreement: " + str({k: d[0][k] for k in ("what", "request", "model", "impl")})[:500]
     return None
+
+
+def explore_shard(ctx):
+    """extra parallel shard of the thorough tier: graph comparisons and real runs under the cooperative scheduler"""
+    res = explore_phys(ctx, 2600, steps=5)
+    rn = norm_exec.explore_norm(ctx, 1500, steps=5, props=PROPS)
+    res["violations"] += rn["violations"]
+    res["disagreements"] += rn["disagreements"]
+    res["coverage"].update(rn["coverage"])
+    return res
